@@ -525,7 +525,7 @@ def st_program(ctx: Ctx):
     small = st.integers(0, 40)
     mask = st.one_of(st.integers(0, 127), st.sampled_from([O_SKIP, O_SORT, O_EXPL, O_TEST, O_INDEX, O_DIALECT, 0, O_SORT | O_SKIP,
                                                             O_OMIT | O_SORT, O_OMIT, O_SORT]))
-    ser = st.tuples(st.just("ser"), small, st.integers(0, 3), mask, st.sampled_from([1, 0, 0]), small).map(list)
+    ser = st.tuples(st.just("ser"), small, st.integers(0, 3), mask, st.sampled_from([1, 1, 0, 0, 0]), small).map(list)
     de = st.tuples(st.just("de"), small, st.integers(0, 3), mask, st.sampled_from([1, 2, 3, 4, 0, 0]), small).map(list)
     other = st.one_of(st.tuples(st.just("all_as_dict"), st.booleans()).map(list), st.just(["load_sources"]))
     return st.fixed_dictionaries(
